@@ -150,8 +150,7 @@ func C18(rep *ev.Reporter, tier string) {
 	boolObjLeaves := []interface{}{jo("const", false), jo("obj", "F.B"), jo("const", true)}
 	strLeaves := []interface{}{jo("const", "xy"), "F.S", jo("const", "x\"y")}
 	if tier == "quick" {
-		numLeaves = numLeaves[:3]
-		boolLeaves = boolLeaves[:3]
+		numLeaves = numLeaves[:4]
 	}
 	arith := []string{"plus", "minus", "mul", "div", "mod", "band", "bor"}
 	cmpo := []string{"eq", "not", "gt", "gte", "lt", "lte"}
@@ -205,7 +204,7 @@ func C18(rep *ev.Reporter, tier string) {
 	// depth 2: root over (node, leaf), (leaf, node) and — thorough — (node, node)
 	stepB, stepN := 1, 1
 	if tier == "quick" {
-		stepB, stepN = 3, 3 // fixed sub-family: every 3rd depth-1 node as nested operand
+		stepB, stepN = 2, 2 // fixed sub-family: every 2nd depth-1 node as nested operand
 	}
 	for _, op := range cmpo {
 		for i := 0; i < len(numNodes); i += stepN {
@@ -242,7 +241,7 @@ func C18(rep *ev.Reporter, tier string) {
 			}
 		}
 	}
-	if tier == "thorough" {
+	{
 		for _, op := range cmpo {
 			for i := 0; i < len(numNodes); i += 2 {
 				for j := 0; j < len(numNodes); j += 3 {
@@ -259,8 +258,12 @@ func C18(rep *ev.Reporter, tier string) {
 		}
 		// depth 3
 		for _, op := range []string{"and", "or", "eq", "not"} {
-			for i := 0; i < len(boolNodes); i += 7 {
-				for j := 0; j < len(boolNodes); j += 11 {
+			d3i, d3j := 7, 11
+			if tier == "thorough" {
+				d3i, d3j = 2, 3
+			}
+			for i := 0; i < len(boolNodes); i += d3i {
+				for j := 0; j < len(boolNodes); j += d3j {
 					for _, op2 := range []string{"and", "or", "not"} {
 						addWhen("depth3", jm(op, jm(op2, boolNodes[i], boolNodes[j]), boolNodes[(i+j)%len(boolNodes)]))
 					}
